@@ -46,7 +46,7 @@ def flat(sp, pre=""):
 
 class Engine(EngineBase):
     def budget(self, tier):
-        return (900, 50.0) if tier == "quick" else (30000, 900.0)
+        return (2700, 55.0) if tier == "quick" else (60000, 900.0)
 
     def rule(self):
         return ("seeded histories (<= 25 steps) of add / remove / re-key job, create view (2 prefixes, all jobs or "
